@@ -436,22 +436,10 @@ theorem prePart_eq_imp (p q : Option (List Char)) (hp : wfPre p = true) (hq : wf
           simp only [preKey, optTop] at h
           rw [splitOn_inj '.' _ _ (lex_identOf_inj _ _ hp.2 hq.2 h)]
 
-/-- `1.0.0+a == 1.0.0+b` but the hash covers the build metadata -/
-theorem eq_imp_hash_counterexample :
-    construct "1.0.0+a".toList = .ok (some ⟨1, 0, 0, none, some ['a'], 0⟩) ∧
-    construct "1.0.0+b".toList = .ok (some ⟨1, 0, 0, none, some ['b'], 0⟩) ∧
-    verOps.eq (some ⟨1, 0, 0, none, some ['a'], 0⟩) (some ⟨1, 0, 0, none, some ['b'], 0⟩) = true ∧
-    hashKey (some ⟨1, 0, 0, none, some ['a'], 0⟩) ≠ hashKey (some ⟨1, 0, 0, none, some ['b'], 0⟩) :=
-  ⟨by rfl, by rfl, by decide, by simp [hashKey]⟩
-
-/-- the build metadata of a value (`None` for the value `None`) -/
-def buildOf : Raw → Option (List Char)
-  | none => none
-  | some v => v.build
-
-/-- equal versions with the same build metadata have the same hash key -/
-theorem eq_imp_hash_partial (a b : Raw) (ha : WF a = true) (hb : WF b = true)
-    (hbuild : buildOf a = buildOf b) : verOps.eq a b = true → hashKey a = hashKey b := by
+/-- C12: equal well-formed versions have the same hash key (the build metadata is ignored by
+`==` and by the hash alike) -/
+theorem eq_imp_hash (a b : Raw) (ha : WF a = true) (hb : WF b = true) :
+    verOps.eq a b = true → hashKey a = hashKey b := by
   cases a with
   | none => cases b <;> simp [verOps, Py.attrsOps, valOps, vercmp, hashKey]
   | some x =>
@@ -465,13 +453,21 @@ theorem eq_imp_hash_partial (a b : Raw) (ha : WF a = true) (hb : WF b = true)
       rw [semverCompare_eq] at h1
       simp only [Ordering.then_eq_eq, c3] at h1
       have hpre := prePart_eq_imp x.pre y.pre ha hb h1.2
-      simp only [buildOf] at hbuild
       simp only [hashKey, Nat.compare_eq_eq.1 h1.1.1, Nat.compare_eq_eq.1 h1.1.2.1,
-        Nat.compare_eq_eq.1 h1.1.2.2, hpre, hbuild, h2]
+        Nat.compare_eq_eq.1 h1.1.2.2, hpre, h2]
 
-example : WF (some ⟨1, 0, 0, none, some ['a'], 0⟩) = true ∧
-    buildOf (some ⟨1, 0, 0, none, some ['a'], 0⟩) = buildOf (some ⟨1, 0, 0, none, some ['a'], 0⟩) := by
-  decide
+/-- `1.0.0+a == 1.0.0+b` and they hash alike -/
+example : verOps.eq (some ⟨1, 0, 0, none, some ['a'], 0⟩) (some ⟨1, 0, 0, none, some ['b'], 0⟩) = true ∧
+    hashKey (some ⟨1, 0, 0, none, some ['a'], 0⟩) = hashKey (some ⟨1, 0, 0, none, some ['b'], 0⟩) :=
+  ⟨by decide, rfl⟩
+
+/-- `WF` is needed: on values that `construct` never builds (a numeric label with a leading zero)
+`==` holds between different prerelease strings -/
+theorem eq_imp_hash_needs_wf :
+    verOps.eq (some ⟨1, 0, 0, some "01.1".toList, none, 0⟩) (some ⟨1, 0, 0, some "1.01".toList, none, 0⟩) = true ∧
+    hashKey (some ⟨1, 0, 0, some "01.1".toList, none, 0⟩) ≠ hashKey (some ⟨1, 0, 0, some "1.01".toList, none, 0⟩) ∧
+    WF (some ⟨1, 0, 0, some "01.1".toList, none, 0⟩) = false :=
+  ⟨by decide, by simp [hashKey], by decide⟩
 
 /-! ### `construct` establishes `WF` -/
 
